@@ -12,6 +12,7 @@ import (
 	"runtime"
 	"sync"
 	"sync/atomic"
+	"time"
 	"unsafe"
 
 	"github.com/bytedance/gopkg/util/gopool"
@@ -340,4 +341,86 @@ func vWgWait(wg *sync.WaitGroup) {
 		}
 	}
 	wg.Wait()
+}
+
+// ---- shims for the hot-restart checkers and the session-manager watchers (instrumenter rules R9-R12) ----
+
+func vGoInt(f func(int), a int) { vGo(func() { f(a) }) }
+
+// vTimer / vTicker: real timers when no scheduler is installed; otherwise a channel only the harness writes to.
+type vTimer struct {
+	C     <-chan time.Time
+	ch    chan time.Time
+	real  *time.Timer
+	tick  *time.Ticker
+	owner *vThread
+	kind  string
+	d     time.Duration
+}
+
+func (t *vTimer) Stop() bool {
+	if t.real != nil {
+		return t.real.Stop()
+	}
+	if t.tick != nil {
+		t.tick.Stop()
+	}
+	return true
+}
+
+var vTimers []*vTimer // timers created under the scheduler, in creation order
+
+func vNewTimer(d time.Duration) *vTimer {
+	if vS == nil || vS.cur == nil {
+		r := time.NewTimer(d)
+		return &vTimer{C: r.C, real: r}
+	}
+	ch := make(chan time.Time, 1)
+	t := &vTimer{C: ch, ch: ch, owner: vS.cur, kind: "timer", d: d}
+	vTimers = append(vTimers, t)
+	return t
+}
+
+func vNewTicker(d time.Duration) *vTimer {
+	if vS == nil || vS.cur == nil {
+		r := time.NewTicker(d)
+		return &vTimer{C: r.C, tick: r}
+	}
+	ch := make(chan time.Time, 1)
+	t := &vTimer{C: ch, ch: ch, owner: vS.cur, kind: "ticker", d: d}
+	vTimers = append(vTimers, t)
+	return t
+}
+
+// vFire makes the newest timer of the given kind owned by thread th ready (non-blocking).
+func vFire(th *vThread, kind string) bool {
+	for i := len(vTimers) - 1; i >= 0; i-- {
+		t := vTimers[i]
+		if t.owner == th && t.kind == kind {
+			select {
+			case t.ch <- time.Now():
+			default:
+			}
+			return true
+		}
+	}
+	return false
+}
+
+func vSleep(d time.Duration) {
+	if vS == nil || vS.cur == nil {
+		time.Sleep(d)
+		return
+	}
+	vYield("sleep")
+}
+
+// vNewClientSessionHook replaces newClientSession when set (the harness scripts connection success / failure).
+var vNewClientSessionHook func(sessionID int, epochID, randID uint64, config *SessionManagerConfig) (*Session, error)
+
+func vNewClientSession(sessionID int, epochID, randID uint64, config *SessionManagerConfig) (*Session, error) {
+	if vNewClientSessionHook != nil {
+		return vNewClientSessionHook(sessionID, epochID, randID, config)
+	}
+	return newClientSession(sessionID, epochID, randID, config)
 }
